@@ -123,6 +123,7 @@ class Interp:
         self.composites = self._scan_composites()
         self.listeners = []
         self.stats = {"stmts": 0, "calls_inlined": 0, "ext_calls": 0}
+        self.site_count = {}
         self._noreturn = False
         from . import npmodel
         self.np = npmodel
@@ -172,8 +173,14 @@ class Interp:
     def new_state(self):
         return St({}, {c.name: c.init(self) for c in self.components})
 
+    # symbolic store forwarding for scalar fields: atoms always denote entry-time values
+    def _symstore(self, st):
+        return st.comp.setdefault("__symstore", {})
+
     def copy_state(self, st: St):
-        return St(dict(st.env), {c.name: c.copy(st.comp[c.name]) for c in self.components})
+        comp = {c.name: c.copy(st.comp[c.name]) for c in self.components}
+        comp["__symstore"] = dict(st.comp.get("__symstore", {}))
+        return St(dict(st.env), comp)
 
     def join_states(self, a: Optional[St], b: Optional[St]) -> Optional[St]:
         if a is None:
@@ -187,6 +194,12 @@ class Interp:
             else:
                 env[k] = a.env.get(k) or b.env.get(k)
         comp = {c.name: c.join(a.comp[c.name], b.comp[c.name]) for c in self.components}
+        sa, sb = a.comp.get("__symstore", {}), b.comp.get("__symstore", {})
+        ss = {}
+        for k in set(sa) | set(sb):
+            x, y = sa.get(k, "entry"), sb.get(k, "entry")
+            ss[k] = x if (x is not None and not isinstance(x, str) and x == y) else (x if x == y else None)
+        comp["__symstore"] = ss
         return St(env, comp)
 
     # ------------------------------------------------------------------ entry
@@ -196,6 +209,8 @@ class Interp:
     def param_val(self, name, fn: FuncInfo = None, override=None):
         if override and name in override:
             dim, kind = override[name]
+        elif fn is not None and fn.kind == "setter" and fn.name not in ("centroid", "center"):
+            dim, kind = TOP, "float"   # size setters take a scalar target
         else:
             dim, kind = PARAM.get(name, (TOP, "unknown"))
         loc = ("param", name)
@@ -210,6 +225,7 @@ class Interp:
         """Analyse fn with `self` of class self_cls.  Returns dict(returns, raises, events, result)."""
         self.events = []
         self.frames = []
+        self.site_count = {}
         self.raise_sinks = [[]]
         st = self.new_state()
         selfv = None
@@ -382,6 +398,7 @@ class Interp:
                     self.emit(st, "write", s, loc=(base.obj.oid, t.attr), objcls=base.obj.cls, mode="inplace",
                               op=opname, sub=None, rhs=rhs, cur=cur, result=res)
                 else:
+                    self._symstore(st)[(base.obj.oid, t.attr)] = res.sym
                     self.emit(st, "write", s, loc=(base.obj.oid, t.attr), objcls=base.obj.cls, mode="rebind",
                               op=opname, sub=None, rhs=res, cur=cur, result=res, aug=rhs)
                 return st
@@ -677,6 +694,8 @@ class Interp:
         if v.obj is not None and v.obj.oid.startswith("new#"):
             # composite: the fresh object becomes part of this object
             pass
+        if ATTR.get(attr, (None, None))[1] in ("float", "int"):
+            self._symstore(st)[(obj.oid, attr)] = v.sym
         self.emit(st, "write", node, loc=(obj.oid, attr), objcls=obj.cls, mode="rebind", op="set", sub=None,
                   rhs=v, cur=None, result=v)
 
@@ -841,7 +860,8 @@ class Interp:
         if prop.cached:
             self.emit(st, "read", node, loc=(base.obj.oid, prop.name), objcls=base.obj.cls, cached=True)
         v = self.call_function(prop.getter, base, [], {}, st, node, role=("getter", prop.name))
-        if v.sym is None and not v.al and v.kind in ("float", "int", "unknown") and v.obj is None and v.items is None:
+        if v.sym is None and not v.al and v.kind in ("float", "int", "unknown", "arr") and v.obj is None \
+                and v.items is None and v.mapping is None:
             # opaque scalar: an atom named after the property (E4 treats it as one symbol)
             v = v.copy(sym=Poly.atom(f"getter<{base.obj.oid}.{prop.name}>"))
         return v
@@ -857,7 +877,11 @@ class Interp:
         scalar = kind in ("float", "int", "bool")
         v = Val(dim=dim, kind=kind, al=frozenset() if scalar else frozenset([loc]), deps=frozenset([loc]), born=0)
         if kind == "float":
-            v.sym = Poly.atom(f"{obj.oid}.{attr}")
+            ss = st.comp.get("__symstore", {})
+            if loc in ss:
+                v.sym = ss[loc]
+            else:
+                v.sym = Poly.atom(f"{obj.oid}.{attr}")
         return v
 
     # ---- subscripts
@@ -1381,7 +1405,9 @@ class Interp:
         if not isinstance(cls, ClassInfo):
             return Val()
         self.newobj += 1
-        oid = f"new#{self.newobj}"
+        site = f"{self.frames[-1].fn.file.rsplit('/', 1)[-1]}:{getattr(node, 'lineno', 0)}" if self.frames else "?"
+        k = self.site_count[site] = self.site_count.get(site, 0) + 1
+        oid = f"new#{cls.name}@{site}#{k}"
         objv = Val(kind="obj", obj=ObjRef(cls, oid), dim=TOP, born=self.time)
         init = cls.lookup("__init__")
         self.emit(st, "construct", node, cls=cls, args=args, kwargs=kwargs, obj=objv.obj)
